@@ -61,7 +61,8 @@ class Ctx:
         self.solver.set('timeout', QUERY_TIMEOUT_MS)
         self.pc = []              # asserted path condition (list of z3 Bool)
         self.cache = {}
-        self.decisions = decisions   # list of [choice(bool), flippable(bool)]
+        self.decisions = decisions   # recorded FORKS only: list of [choice(bool), flippable(bool)]
+        self.witness = None          # a model of the current path condition (optimisation only) or None
         self.pos = 0
         self.errors = []          # (violating condition, message, len(pc) when it arose)
         self.guard = []           # stack of z3 Bool (merge-interpreter guards)
@@ -78,6 +79,7 @@ class Ctx:
                 c = z3.BoolVal(c)
             self.pc.append(c)
             self.solver.add(c)
+        self.witness = None
 
     def fresh(self, prefix, sort_width=None):
         self.fresh_counter += 1
@@ -179,25 +181,43 @@ def branch(cond):
     key = c.get_id()
     if key in cx.cache:
         return cx.cache[key][1]
-    if cx.pos < len(cx.decisions):
-        choice = cx.decisions[cx.pos][0]
-        cx.pos += 1
-        cx.assume(c if choice else z3.Not(c))
-        cx.cache[key] = (c, choice)
-        return choice
-    if cx.max_depth is not None and sum(1 for d in cx.decisions if d[2]) >= cx.max_depth:
-        raise CutPath()
-    can_t = cx.check(c)
-    can_f = cx.check(z3.Not(c))
-    if not can_t and not can_f:
-        raise Inconclusive('infeasible path condition')
-    choice = bool(can_t)
-    both = can_t and can_f
-    cx.decisions.append([choice, both, both])
-    cx.pos += 1
+    # Which sides are feasible is a semantic fact about (path condition, cond): it does not depend on how z3 happens
+    # to order the operands of this particular AST, so re-executions classify every branch identically.  Only genuine
+    # forks are recorded and replayed; one-sided branches are re-derived.  A witness model of the path condition saves
+    # one of the two solver calls (it never influences the outcome).
+    w = cx.witness
+    if w is None:
+        if not cx.check():
+            raise Inconclusive('infeasible path condition')
+        w = cx.witness = cx.solver.model()
+    wv = z3.is_true(w.eval(c, model_completion=True))
+    other_model = None
+    if wv:
+        can_t = True
+        can_f = cx.check(z3.Not(c))
+        if can_f:
+            other_model = cx.solver.model()
+    else:
+        can_f = True
+        can_t = cx.check(c)
+        if can_t:
+            other_model = cx.solver.model()
     STATS.decisions += 1
-    STATS.forks += both
+    if can_t and can_f:
+        if cx.pos < len(cx.decisions):
+            choice = cx.decisions[cx.pos][0]
+        else:
+            if cx.max_depth is not None and len(cx.decisions) >= cx.max_depth:
+                raise CutPath()
+            choice = True
+            cx.decisions.append([True, True])
+            STATS.forks += 1
+        cx.pos += 1
+    else:
+        choice = bool(can_t)
+    keep = w if choice == wv else other_model
     cx.assume(c if choice else z3.Not(c))
+    cx.witness = keep
     cx.cache[key] = (c, choice)
     return choice
 
@@ -246,7 +266,7 @@ def explore(fn, prefix=(), max_depth=None, max_paths=None):
     status is 'done' or 'cut' (max_depth reached; value is then the tuple of decisions taken, to be handed to a
     worker as its prefix)."""
     global CTX
-    decisions = [[bool(c), False, False] for c in prefix]
+    decisions = [[bool(c), False] for c in prefix]
     npaths = 0
     while True:
         cx = Ctx(decisions, max_depth)
@@ -271,7 +291,7 @@ def explore(fn, prefix=(), max_depth=None, max_paths=None):
             decisions.pop()
         if not decisions:
             return
-        decisions[-1] = [not decisions[-1][0], False, True]
+        decisions[-1] = [not decisions[-1][0], False]
         if max_paths and npaths >= max_paths:
             return
 
